@@ -138,6 +138,23 @@ func runC17(c *Ctx) error {
 		"one model step case per distinct prefix up to depth %d (deeper for small caps), whole-history model cases for a sample; (b) random long histories for bits 8..15 with chunk lengths at free-1/free/free+1/cap-1/cap/cap+1/free+cap(+-1)/2cap+3/0/2^k(+-1)/cap+2^k(+-1)/random; "+
 		"(c) disabled (zero-value) window. non-trivial = non-empty chunk; distinct by (capacity, window before, chunk)", depth, modelDepth)
 
+	// ---- capacity: exactly 2^bits for every window size that can be negotiated (and the sizes below)
+	for bits := 0; bits <= 15; bits++ {
+		w := gws.NewVerifWindow(bits)
+		if w.Size() != 1<<uint(bits) {
+			c.oracleFail(fmt.Sprintf("a window of %d bits has capacity %d, want %d", bits, w.Size(), 1<<uint(bits)), "window-capacity", map[string]any{"bits": bits, "capacity": w.Size()})
+		}
+		// and it really holds that much: after 2^bits + 5 distinct bytes the window is the last 2^bits of them
+		data := make([]byte, 1<<uint(bits)+5)
+		for i := range data {
+			data[i] = byte(i*7 + i>>8)
+		}
+		_, _ = w.Write(data)
+		if !bytes.Equal(w.Dict(), data[5:]) {
+			c.oracleFail(fmt.Sprintf("a window of %d bits holds %d bytes after %d were written, want the last %d", bits, len(w.Dict()), len(data), 1<<uint(bits)), "window-capacity", map[string]any{"bits": bits})
+		}
+		c.count(fmt.Sprintf("capacity bits=%d", bits), true, "kind=capacity")
+	}
 	// ---- (c) disabled window: stays empty whatever is written
 	{
 		r := c17New(c, -1, 0)
